@@ -187,22 +187,6 @@ func c03Program(r *Report, s3 *S3, rp *routedProgram) (nFns, nReq, nLeaves int, 
 	meths = append(meths, undeclared)
 	depth := maxDepth + 1
 	exhaustive = true
-	budget := 400000
-	total := 1
-	for d := 0; d < depth; d++ {
-		total *= len(alpha)
-		if total > budget {
-			break
-		}
-	}
-	for total > budget && depth > maxDepth {
-		depth--
-		exhaustive = false
-		total = 1
-		for d := 0; d < depth; d++ {
-			total *= len(alpha)
-		}
-	}
 	type mismatch struct{ req, got, want string }
 	var mism []mismatch
 	seenMis := map[string]bool{}
@@ -238,8 +222,55 @@ func c03Program(r *Report, s3 *S3, rp *routedProgram) (nFns, nReq, nLeaves int, 
 			seenMis[id] = true
 		}
 	}
-	var rec func(segs []string)
-	rec = func(segs []string) {
+	// The request space is explored as a tree of segment lists. A prefix is extended only while it is
+	// still viable on at least one side: some template has it as a proper prefix (reference), or some
+	// route function of the model would still be entered after consuming it (model). Below a prefix
+	// that is dead on both sides every longer request is a miss on both sides (each route function
+	// consumes exactly one segment), so nothing is lost by not enumerating it.
+	refViable := func(segs []string) bool {
+		for _, po := range o.Paths {
+			if len(po.Segments) <= len(segs) {
+				continue
+			}
+			ok := true
+			for i, sg := range segs {
+				if !isVarSeg(po.Segments[i]) && po.Segments[i] != sg {
+					ok = false
+					break
+				}
+			}
+			if ok {
+				return true
+			}
+		}
+		return false
+	}
+	step := func(alive []*RouteNode, seg string) []*RouteNode {
+		var next []*RouteNode
+		seen := map[*RouteNode]bool{}
+		add := func(n *RouteNode) {
+			if n != nil && !seen[n] {
+				seen[n] = true
+				next = append(next, n)
+			}
+		}
+		for _, n := range alive {
+			matched, backtrack := false, false
+			for _, ch := range n.Children {
+				if ch.Prefix == "/"+seg {
+					matched, backtrack = true, ch.Backtrack
+					add(m.Nodes[ch.Fn])
+					break
+				}
+			}
+			if (!matched || backtrack) && n.Tail != "" {
+				add(m.Nodes[n.Tail])
+			}
+		}
+		return next
+	}
+	var rec func(segs []string, alive []*RouteNode)
+	rec = func(segs []string, alive []*RouteNode) {
 		rest := ""
 		if len(segs) > 0 {
 			rest = "/" + strings.Join(segs, "/")
@@ -251,10 +282,20 @@ func c03Program(r *Report, s3 *S3, rp *routedProgram) (nFns, nReq, nLeaves int, 
 			return
 		}
 		for _, a := range alpha {
-			rec(append(append([]string{}, segs...), a))
+			ext := append(append([]string{}, segs...), a)
+			nextAlive := step(alive, a)
+			if len(nextAlive) == 0 && !refViable(ext) {
+				// dead on both sides for every proper extension: judge this request alone
+				rest2 := "/" + strings.Join(ext, "/")
+				for _, mth := range meths {
+					compare(o.BasePath+rest2, ext, true, mth)
+				}
+				continue
+			}
+			rec(ext, nextAlive)
 		}
 	}
-	rec(nil)
+	rec(nil, []*RouteNode{m.Nodes["route"]})
 	// base-path near misses
 	if o.BasePath != "" {
 		var samples [][]string
